@@ -24,6 +24,12 @@ def trig_sq(x):
     return 1.0 + x ** 2
 
 
+def trig_builtins(x):
+    # written with Python's builtins (max with two arguments, any over a generator, abs, sum): the rendered module pastes this source
+    # below `from numpy import *`, where the same names mean something else
+    return np.array([max(x[0], 0.0), max(x[1], 0.0)]) + (1.0 if any(v > 1 for v in x) else 0.0) + abs(sum(v for v in x)) / 10
+
+
 def zoo():
     """name -> builder.  Builders return (Model, kind) with kind in {'AE','DAE','FDAE'}."""
     from Solverz import Model, Var, Param, TimeSeriesParam, Eqn, Ode, AliasVar, sin, cos, exp, ln, Abs, Sign, Min, Saturation, heaviside, AntiWindUp
@@ -127,6 +133,13 @@ def zoo():
         m.e1 = Eqn("e1", m.g * m.x ** 2 - m.b - m.x ** 3 / 10)      # g in the second derivative: HVP must fire the trigger
         return m, "AE"
 
+    def ae_trigger_builtins():
+        m = Model()
+        m.x = Var("x", [-0.5, 1.5])
+        m.h = Param("h", [2.0, 2.7], triggerable=True, trigger_var=["x"], trigger_fun=trig_builtins)
+        m.e1 = Eqn("e1", m.h * m.x - 1)
+        return m, "AE"
+
     def ae_trigger_smooth():
         # the stored value of k (10, 10) is NOT trigger_fun(x0): every function that uses k must fire the trigger
         m = Model()
@@ -138,7 +151,7 @@ def zoo():
         return m, "AE"
 
     return dict(ae_trigger_smooth=ae_trigger_smooth, ae_basic=ae_basic, ae_slices=ae_slices, ae_piecewise=ae_piecewise, dae_ts=dae_ts,
-                dae_interleaved=dae_interleaved, ae_consts=ae_consts, dae_ts_index=dae_ts_index, dae_awu=dae_awu, fdae_heat=fdae_heat, ae_trigger=ae_trigger)
+                dae_interleaved=dae_interleaved, ae_consts=ae_consts, ae_trigger_builtins=ae_trigger_builtins, dae_ts_index=dae_ts_index, dae_awu=dae_awu, fdae_heat=fdae_heat, ae_trigger=ae_trigger)
 
 
 def instantiate(builder):
